@@ -73,11 +73,11 @@ class pinned_tz:
 # whether executing the line is a model statement)   [first visit, second visit in one call]
 # --------------------------------------------------------------------------------------
 LRU_PATTERNS = [
+    (r"with cls\._{1,2}cache_lock", ("lAcq", True), ("xRel", True)),
     (r"=\s*cls\.__instances\.get\(", ("lGet", True), None),
     (r"if instance is None", ("lTest", True), None),
-    (r"instance = cls\.__instances\.setdefault\(", ("lAlloc", False), ("lSetdef", True)),
+    (r"instance = cls\.__instances\.setdefault\(", ("lAlloc", False), ("lSdRead", True)),
     (r"^\s*cls\.instance\(", ("lAlloc", True), None),
-    (r"with cls\._{1,2}cache_lock", ("lAcq", True), ("xRel", True)),
     (r"cls\.__strong_cache\[key\] = cls\.__strong_cache\.pop\(key, instance\)", ("xTouch", True), None),
     (r"if len\(cls\.__strong_cache\) > cls\.__strong_cache_size", ("xLen", True), None),
     (r"cls\.__strong_cache\.popitem\(last=False\)", ("xEvict", True), None),
@@ -176,7 +176,7 @@ class LruFac(Fac):
         self.nkeys = len(self.keys)
 
     def functions(self):
-        req = [p[0] for i, p in enumerate(LRU_PATTERNS) if i != 3]
+        req = [p[0] for i, p in enumerate(LRU_PATTERNS) if i != 4]
         return {"call": (self.meta.__call__, LRU_PATTERNS, req)}
 
     def install_lock(self, lock):
@@ -659,8 +659,10 @@ def run_threads(fac, scripts, policy, env_rng=None, env_rate=0.0, max_steps=5000
     tables, info, unmapped = build_tables(fac, lenient=True)
     if fine:
         # beyond the property's statement granularity: also pre-empt between the source lines of the
-        # pure-Python bodies of WeakValueDictionary.get / setdefault (no model counterpart: all tau)
-        for fn in (weakref.WeakValueDictionary.setdefault, weakref.WeakValueDictionary.get):
+        # pure-Python bodies of WeakValueDictionary.get / setdefault / __setitem__ (steps without a model
+        # counterpart of their own: the enclosing dateutil statement is the model step)
+        for fn in (weakref.WeakValueDictionary.setdefault, weakref.WeakValueDictionary.get,
+                   weakref.WeakValueDictionary.__setitem__):
             tables[fn.__code__] = ("wvd", {})
         info["wvd"] = {}
     sched = Sched(tables)
@@ -752,7 +754,9 @@ def run_threads(fac, scripts, policy, env_rng=None, env_rate=0.0, max_steps=5000
             if steps >= max_steps:
                 break
             # environment: a caller drops a reference it was handed; unreferenced objects die at once
-            if env_rng is not None and env_rng.random() < env_rate:
+            # (not while a thread is inside weakref.py: its model statement has fired, its actual read has not)
+            inside = any(sched.state[i][0] == "at" and sched.state[i][1] == "wvd" for i in range(n))
+            if env_rng is not None and env_rng.random() < env_rate and not inside:
                 cands = [(t, j) for t in range(n) for j in range(len(handed[t])) if handed[t][j]["obj"] is not None]
                 if cands:
                     t, j = env_rng.choice(cands)
